@@ -71,7 +71,9 @@ func (k Keeper) IterateDelegationsForStakerAndAsset(ctx sdk.Context, stakerID st
 }
 
 func (k Keeper) IterateDelegationsForStaker(ctx sdk.Context, stakerID string, opFunc DelegationOpFunc) error {
-	return k.IterateDelegations(ctx, []byte(stakerID), opFunc)
+	// the delimiter belongs to the prefix: the hex chain id at the end of a staker ID has no fixed
+	// width, so without it "<addr>_0x6" would also match the delegations of "<addr>_0x65".
+	return k.IterateDelegations(ctx, append([]byte(stakerID), '/'), opFunc)
 }
 
 // TotalDelegatedAmountForStakerAsset query the total delegation amount of the specified staker and asset.
